@@ -239,8 +239,9 @@ impl<'p> CoroutinePool<'p> {
 
     fn do_clean(&mut self) {
         // clean up remaining wait tasks
-        for r in &self.waits {
-            let task_id = *r.key();
+        // collect first: `notify` removes from `waits`, which would deadlock under the iterator's lock
+        let task_ids: Vec<u64> = self.waits.iter().map(|r| *r.key()).collect();
+        for task_id in task_ids {
             _ = self
                 .results
                 .insert(task_id, Err("The coroutine pool has stopped"));
